@@ -15,5 +15,6 @@ INVARIANT TraceUnchanged
 INVARIANT PointMass
 INVARIANT ScaleFree
 INVARIANT FitsInv
+INVARIANT OrderReductionSound
 CONSTRAINT Emit
 CHECK_DEADLOCK FALSE
